@@ -77,6 +77,25 @@ CHECKS = {
              "is identified by sentinel and disagreements judged by the observation spec on the delivered file's own location. "
              "Thorough: real TLS on the PyOpenSSL backend in memory with RSA/EC/Ed25519 client certificates.",
         note="Trusted: TLC; sentinel identification; capsule without symlinks (C02 covers links)."),
+    "C13": dict(
+        engine="ClientConn", design="8 C13, 5.6, Appendix D",
+        text="TLC checks PromptOnClose, Faithful, SegIndep, Capped (invariants) and Terminates (liveness under weak fairness) on "
+             "ClientConn over ~45 server scripts generated with their real lengths (every status class, charset none/utf-8/"
+             "latin-1/unknown label, invalid bodies, binary types, no CRLF, non-digit / out-of-range status, invalid UTF-8 header, "
+             "10 MiB cap exactly/over, partial header) x 5 pin situations x {get, upload} x all segmentations at the scripts' cut "
+             "points x fin/rst/never; every transition is executed on the real GeminiClient._get_single / upload in virtual time "
+             "with a fake transport and a real SQLite pin store; every returned response is checked byte for byte against the "
+             "bytes after the first CRLF; random grammar streams (every codec label Python knows plus unknown ones) are judged by "
+             "the byte-level oracle.",
+        note="Trusted: TLC; fake transport contract; the byte-level oracle of checks/clientconn.py (expected_body)."),
+    "C11": dict(
+        engine="ClientConn", design="8 C11, 5.6, Appendix D",
+        text="NothingBeforeVerify and ChangedGetsNothing model-checked on ClientConn (pinned / first use / changed / unreadable / "
+             "TOFU off x get with query / upload with token and content) and every transition replayed on the real client: the "
+             "observable is the bytes that have left the client on the transport at each step, so a request written before the pin "
+             "check (or with verify_ssl=True) is seen; the request that does leave is compared byte for byte.",
+        note="Trusted: as C13. Multi-call histories on one client object (redirect hops, caches across calls) are covered by the "
+             "Tofu history check (C03)."),
 }
 
 ORDER = ["C01", "C02", "C03", "C04", "C05", "C06", "C07", "C08", "C09", "C10", "C11", "C12", "C13", "C14", "C15",
